@@ -142,6 +142,10 @@ EXTRA_TRUSTED = [
     "Lean Float (IEEE double) arithmetic and libm cos/sin/exp/log in the compiled driver",
 ]
 ASSUMPTIONS = [
+    "sdEstM declines ('unmodelled', counted) where scipy returns something the model does not describe: record shorter than nperseg (warning, "
+    "shorter segment), negative overlap (pov < 0), Hann window of length 1 (nxseg = 1), empty arrays; dt = 0 (ZeroDivisionError for a Python "
+    "float) is outside the model; the product nxseg*pov and int() are the platform's (SdEnv.trunc): over an ordered field perNoverlap_int "
+    "gives floor(nxseg*pov), in double arithmetic the product is rounded first (10*0.7 -> 7; stream SD_est[noverlap])",
     "records have at least one full segment (nxseg <= Ndat): shorter records make scipy shrink nperseg with a warning and are outside the model",
     "the approximate statements of the property (Parseval 5 %, gain-and-delay 5 % / 30 % on non-periodic broadband data) are validated by search only; "
     "gain-and-delay oracle: the DC line is compared only for delays <= nxseg/512 (segment-mean removal leaves untapered weights there; "
